@@ -40,6 +40,8 @@ pub struct Op {
 pub struct Case {
     pub text: String,
     pub ops: Vec<Op>,
+    /// offsets between CR and LF may be chosen (fault kind)
+    pub inside_crlf: bool,
 }
 
 macro_rules! counters {
@@ -62,6 +64,7 @@ counters!(
     fault_locator_rebuilt_midway,
     fault_lookahead_between_locates,
     fault_far_lookahead_across_lines,
+    fault_offset_inside_crlf,
     probe_same_offset_twice,
     probe_same_line,
     probe_next_line,
@@ -157,15 +160,18 @@ pub fn generate(seed: u64, config: u64, scale: u32) -> Case {
             b: r.next_u32(),
         });
     }
-    Case { text, ops }
+    let inside_crlf = faults && r.chance(1, 3);
+    Case { text, ops, inside_crlf }
 }
 
-/// Offsets a node or an error can have: character boundaries, never between CR and LF,
-/// and not the position in front of a leading BOM (that one is `LocateZero`).
-fn legal_offsets(text: &str) -> Vec<usize> {
+/// Offsets a node or an error can have: character boundaries, but not the position in front
+/// of a leading BOM (that one is `LocateZero`). Positions between the CR and the LF of a
+/// CRLF are included only when the case asks for them: the parser does hand them out (error
+/// offsets and replacement fields of CRLF f-strings), so they are a fault kind of config 1.
+fn legal_offsets(text: &str, with_inside_crlf: bool) -> Vec<usize> {
     model::boundaries(text)
         .into_iter()
-        .filter(|&o| !model::inside_crlf(text, o))
+        .filter(|&o| with_inside_crlf || !model::inside_crlf(text, o))
         .filter(|&o| !(text.starts_with(model::BOM) && o < 3))
         .collect()
 }
@@ -226,7 +232,7 @@ pub fn execute(case: &Case, stats: &mut Stats) -> Outcome {
     let text: &str = &case.text;
     let mut dg = Digest::default();
     dg.str(text);
-    let legal = legal_offsets(text);
+    let legal = legal_offsets(text, case.inside_crlf);
     let table = model::RowTable::new(text);
     let rows = &table.rows;
     let line_ends: Vec<usize> = model::split_lines(text).iter().map(|l| l.end).collect();
@@ -345,6 +351,9 @@ pub fn execute(case: &Case, stats: &mut Stats) -> Outcome {
                 }
                 if zero {
                     stats.bump(C::probe_bom_offset_zero as usize);
+                }
+                if model::inside_crlf(text, o) {
+                    stats.bump(C::fault_offset_inside_crlf as usize);
                 }
                 stats.states.insert(
                     (op.k as u64)
@@ -485,11 +494,11 @@ pub fn execute(case: &Case, stats: &mut Stats) -> Outcome {
 pub fn shrink(case: &Case) -> Vec<Case> {
     let mut out = Vec::new();
     for ops in chunk_removals(&case.ops) {
-        out.push(Case { ops, text: case.text.clone() });
+        out.push(Case { ops, ..case.clone() });
     }
     let chars: Vec<char> = case.text.chars().collect();
     for rem in chunk_removals(&chars) {
-        out.push(Case { text: rem.into_iter().collect(), ops: case.ops.clone() });
+        out.push(Case { text: rem.into_iter().collect(), ..case.clone() });
     }
     for i in 0..chars.len() {
         let repl = match chars[i] {
@@ -500,7 +509,10 @@ pub fn shrink(case: &Case) -> Vec<Case> {
         };
         let mut c2 = chars.clone();
         c2[i] = repl;
-        out.push(Case { text: c2.into_iter().collect(), ops: case.ops.clone() });
+        out.push(Case { text: c2.into_iter().collect(), ..case.clone() });
+    }
+    if case.inside_crlf {
+        out.push(Case { inside_crlf: false, ..case.clone() });
     }
     for (i, op) in case.ops.iter().enumerate() {
         for (a, b) in [(0, 0), (op.a % 8, op.b % 16), (op.a % 8, op.b), (op.a, 0)] {
@@ -533,11 +545,13 @@ pub fn case_size(case: &Case) -> usize {
         + case.text.len() * 1000
         + args
         + case.text.chars().filter(|c| !matches!(c, 'a' | '\n')).count() * 10
+        + case.inside_crlf as usize * 500
 }
 
 pub fn case_to_json(case: &Case) -> J {
     obj(vec![
         ("text", case.text.as_str().into()),
+        ("offsets_inside_crlf_allowed", case.inside_crlf.into()),
         (
             "ops",
             J::Arr(case.ops.iter().map(|o| J::Arr(vec![o.k.name().into(), o.a.into(), o.b.into()])).collect()),
@@ -554,7 +568,8 @@ pub fn case_from_json(j: &J) -> Result<Case, String> {
         let g = |i: usize| a.get(i).and_then(J::as_u64).unwrap_or(0) as u32;
         ops.push(Op { k, a: g(1), b: g(2) });
     }
-    Ok(Case { text, ops })
+    let inside_crlf = j.get("offsets_inside_crlf_allowed").and_then(J::as_bool).unwrap_or(false);
+    Ok(Case { text, ops, inside_crlf })
 }
 
 pub struct CursorLayer;
@@ -590,6 +605,7 @@ impl Layer for CursorLayer {
                 C::fault_lookahead_between_locates as usize,
                 C::fault_far_lookahead_across_lines as usize,
                 C::probe_bom_offset_zero as usize,
+                C::fault_offset_inside_crlf as usize,
             ]);
         }
         v
